@@ -49,6 +49,13 @@ Fixpoint upd {A} (i : nat) (x : A) (l : list A) : list A :=
 
 Definition sub {A} (a b : nat) (l : list A) : list A := firstn (b - a) (skipn a l).
 
+(** string-join: the strings with the separator between each two neighbours *)
+Fixpoint intercalate {A} (sep : list A) (ls : list (list A)) : list A :=
+  match ls with
+  | [] => []
+  | x :: rest => match rest with [] => x | _ :: _ => x ++ sep ++ intercalate sep rest end
+  end.
+
 (** specification state: one code-point array per string variable *)
 Definition sstate : Type := list (list Z).
 Definition svar (st : sstate) (v : nat) : list Z := nth v st [].
